@@ -515,6 +515,24 @@ def stringToDatetime(dateString):
     return int(timegm(year, month, day, hour, min, sec))
 
 
+_CONTROL_WHITESPACE_TO_SPACE = bytes.maketrans(b"\x00\x0b\x0c", b"   ")
+
+
+def _sanitizeFieldContent(content: bytes) -> bytes:
+    r"""
+    Make C{content} safe to write as the reason phrase of a status line or as
+    a header field value: line breaks (C{\n}, C{\r\n}, C{\r}) are replaced
+    by a single space, as L{Headers} does for the values it stores, and so are
+    NUL, vertical tab and form feed, which must not be sent (RFC 9110 section
+    5.5) and which make HTTP parsers refuse the whole message.
+
+    @param content: A reason phrase or header field value.
+
+    @return: C{content} without any of those bytes.
+    """
+    return _sanitizeLinearWhitespace(content).translate(_CONTROL_WHITESPACE_TO_SPACE)
+
+
 def toChunk(data):
     """
     Convert string to a chunk.
@@ -2740,10 +2758,22 @@ class HTTPChannel(basic.LineReceiver, policies.TimeoutMixin):
                 sanitizedHeaders.addRawHeader(name, value)
             headers = sanitizedHeaders
 
-        headerSequence = [version, b" ", code, b" ", reason, b"\r\n"]
+        # The reason phrase comes from the application
+        # (Request.setResponseCode): like a header value it must not be able
+        # to end the status line or to make the response unreadable.
+        headerSequence = [
+            version,
+            b" ",
+            code,
+            b" ",
+            _sanitizeFieldContent(reason),
+            b"\r\n",
+        ]
         for name, values in headers.getAllRawHeaders():
             for value in values:
-                headerSequence.extend((name, b": ", value, b"\r\n"))
+                headerSequence.extend(
+                    (name, b": ", _sanitizeFieldContent(value), b"\r\n")
+                )
         headerSequence.append(b"\r\n")
         self.transport.writeSequence(headerSequence)
 
